@@ -29,6 +29,7 @@ type ccOpt struct {
 	parent       *sim.Kind
 	children     []*sim.Kind
 	methods      map[string]v1alpha1.ChildUpdateMethod // by resource
+	methodsOf    map[*sim.Kind]v1alpha1.ChildUpdateMethod // by kind (wins; for kinds that share a plural name)
 	checks       map[string]v1alpha1.ChildUpdateStatusChecks
 	generateSel  bool
 	finalize     bool
@@ -96,7 +97,11 @@ func (o ccOpt) build() *v1alpha1.CompositeController {
 	}
 	for _, ck := range o.children {
 		rule := v1alpha1.CompositeControllerChildResourceRule{ResourceRule: v1alpha1.ResourceRule{APIVersion: ck.APIVersion(), Resource: ck.Resource}}
-		if m, ok := o.methods[ck.Resource]; ok {
+		m, ok := o.methodsOf[ck]
+		if !ok {
+			m, ok = o.methods[ck.Resource]
+		}
+		if ok {
 			rule.UpdateStrategy = &v1alpha1.CompositeControllerChildUpdateStrategy{Method: m}
 			if c, ok := o.checks[ck.Resource]; ok {
 				rule.UpdateStrategy.StatusChecks = c
